@@ -1408,7 +1408,10 @@ def run(ctx):
                        "(thorough 2x, 2x+1), all also under ASan; thread counts above the number of cores and above the standard library's small-size thresholds (17 and 33; thorough also 24 and 64) "
                        "for both task-based modes; restart dumps with 0/1/2/3 configured backups, 5 dumps in the first process, more after each of two restarts, the restarted process with MORE "
                        "threads (restart with fewer threads is a recorded finding with its own key); Utilities::argsort on 415 vectors of 0..100 elements with many ties in a sanitized harness "
-                       "(harness/c12_util.cpp). Quick: all runs on the normal binary + the stress/race/moving-source subset (15 configurations) on the "
+                       "(harness/c12_util.cpp); output options: DensityGridWriterFields with all ions of every ion field, everything on, an ion without the lower ions (recorded finding), thorough: "
+                       "each field alone, two far ions, everything off but the coordinates - keys obtained from the real static functions of the tree (harness/c12_fields.cpp, "
+                       "coverage.output_fields), Gadget writer in both modes + AsciiFile once; every optional command-line switch found in the add_option calls of the sources in at least one run "
+                       "(coverage.cli_switches; a wrong --use-version must be refused). Quick: all runs on the normal binary + the stress/race/moving-source subset (15 configurations) on the "
                        "ASan/UBSan binary; thorough: every run on both + LeakSanitizer on the RHD locals + 4 runs under ThreadSanitizer (clang/libomp/Archer build; known unlocked accesses listed in "
                        "TSAN_KNOWN). A run that does not end within 60 s (75 s under ASan) is a violation and stops further runs of its kind; distinct = (binary, configuration)")
     if info is None:
@@ -1531,7 +1534,7 @@ MANIFEST = dict(
          "around, repeated 8-thread runs of the components with per-subgrid state on hundreds of subgrids, and radiation with diffuse field, subgrid copies and time-dependent sources over many steps "
          "(exit status, expected outputs, no hang on the normal binary; an ASan/UBSan build of the whole binary on a stress subset in the quick tier and on every run in the thorough tier; "
          "ThreadSanitizer on four runs in the thorough tier). Subgrid sizes and photon numbers cross the writer's blocksize and PHOTONBUFFER_SIZE (both read from the source at run time); thread counts go up to 33 (64 in thorough); "
-         "restart chains cover 0-3 backups and more threads after the restart. "
+         "restart chains cover 0-3 backups and more threads after the restart; the writers' output-field options and the optional command-line switches are swept (names read from the tree). "
          "A data race is only found when it shows in one of the repetitions or under ThreadSanitizer.",
     note="Trusted: Lean kernel + 3 axioms; textual translator tools/gen_c12_lifecycle.py (fails closed); uniform-vector abstraction; same condition text = same option; null dereferences excluded only under "
          "stated parameter-file assumptions (theorem rhdSimulation_null_source_distribution_is_dereferenced shows one is necessary: genuine crash). Whole-run part is a search with replayable parameter files, not a proof; "
